@@ -157,6 +157,7 @@ class Interp:
         k = len(self.decisions)
         if k < len(self.prefix):
             d = self.prefix[k]
+            if not isinstance(d, bool): raise Unsupported('decision stream misaligned (branch)')
         else:
             t = self.check(cond)
             if t == z3.unknown: raise PathEnd('unknown', 'solver unknown on branch feasibility')
@@ -166,8 +167,8 @@ class Interp:
             if t and f:
                 d = True; self.pending.append(self.decisions + [False])
                 self.tot['decisions'] += 1
-            elif t: d = None; self.assume(cond); return True      # forced: not a decision
-            elif f: d = None; self.assume(z3.Not(cond)); return False
+            elif t: d = True       # forced; still recorded so that re-execution stays aligned
+            elif f: d = False
             else: raise Infeasible()
         self.decisions.append(d)
         self.assume(cond if d else z3.Not(cond))
@@ -180,19 +181,30 @@ class Interp:
         return len(conds) - 1
 
     def concretize(self, term, limit=64, what='value'):
-        """fork over the values the solver reports feasible for an Int term (all-SAT); returns python int"""
+        """fork over the values the solver reports feasible for an Int term (all-SAT); returns python int.
+        Decisions are recorded as ('c', value, taken) so that re-execution needs no solver call."""
         if is_conc(term): return term
         term = z3.simplify(term)
         if z3.is_int_value(term): return term.as_long()
         for _ in range(limit):
             k = len(self.decisions)
-            if k < len(self.prefix) and False: pass
+            if k < len(self.prefix):
+                ent = self.prefix[k]
+                if not (isinstance(ent, tuple) and ent[0] == 'c'): raise Unsupported('decision stream misaligned (concretize)')
+                self.decisions.append(ent)
+                if ent[2]:
+                    self.assume(term == ent[1]); return ent[1]
+                self.assume(term != ent[1]); continue
             r, m = self.model_for()
             if r != z3.sat:
                 if r == z3.unknown: raise PathEnd('unknown', 'solver unknown in concretize')
                 raise Infeasible()
             v = m.eval(term, model_completion=True).as_long()
-            if self.branch(term == v): return v
+            self.pending.append(self.decisions + [('c', v, False)])
+            self.decisions.append(('c', v, True))
+            self.tot['decisions'] += 1
+            self.assume(term == v)
+            return v
         raise PathEnd('bound', f'more than {limit} feasible values for {what}')
 
     # ----- statics / closures -----
